@@ -62,7 +62,9 @@ func c12Faults() []c12Fault {
 	)
 	rt := []string{`1 / 0`, `1 % 0`, `5(1)`, `nofn()`, `"a" ~ "("`, `[1] < 2`, `$nope`, `"a\qb"`, `printf("%s")`, `printf("%d", 1)`, `numv.k = 1`, `arrv["k"] = 1`, `arrv[-9]`, `objv[[1]]`,
 		`match (1) { -1 => 2 }`, `1.2.3`, `arrv.push()`, `"a".split(1)`, `[printf]`, `numv.k++`,
-		`wz /= 0`, `numv.k += 1`, `arrv["k"] -= 1`, `objv.k /= 0`, `numv.k *= 2`}
+		`wz /= 0`, `numv.k += 1`, `arrv["k"] -= 1`, `objv.k /= 0`, `numv.k *= 2`,
+		// a failing call whose argument calls a function defined on other lines (which calls again)
+		`printf("%d items", lab(1))`, `nofn(lab(2), lab(3))`, `5(lab(1))`, `arrv.push(lab(1), lab(2))`, `"a".split(lab(1))`}
 	for _, f := range rt {
 		for k := 0; k <= 3; k++ {
 			pre := `q = "` + strings.Repeat("é", k) + `"; w = `
@@ -90,7 +92,7 @@ type c12Spec struct {
 
 func c12Program(s c12Spec, faults []c12Fault) (src string, line int, f c12Fault) {
 	f = faults[s.Fault]
-	lines := []string{"function f(v) { return v }", "BEGIN {", c12Preset}
+	lines := []string{"function f(v) { return v }", "function lab(o) {", "  t = f(o)", "  return f(t)", "}", "BEGIN {", c12Preset}
 	for _, k := range s.Pre {
 		lines = append(lines, c12Lines[k])
 	}
@@ -251,6 +253,21 @@ func init() {
 						pc := c11FaultProg(fi, si)
 						sp := pc.spec()
 						c.Do(func() any { return c12Spec{Form: "general", Prog: sp.Program, Files: sp.Files, Sels: sp.Selectors} }, func() *fw.Violation { return c12General(c, sp) })
+					}
+				}
+				// faults whose position is a newline byte or the end of the text: every prefix of a seed cut at a line end (an
+				// unclosed block), with and without trailing blanks / a comment / CRLF, and an unterminated string at a line end
+				for _, pc := range seedPrograms() {
+					src := pc.source()
+					for i := 0; i < len(src); i++ {
+						if src[i] != '\n' {
+							continue
+						}
+						for _, tail := range []string{"", "\n", " \n", "  # c\n", "\r\n", "\n\n", "\nx = \"", "\nx = 'abc\n", "\n  y = /re\n"} {
+							sp := pc.spec()
+							sp.Program = src[:i] + tail
+							c.Do(func() any { return c12Spec{Form: "general", Prog: sp.Program, Files: sp.Files, Sels: sp.Selectors} }, func() *fw.Violation { return c12General(c, sp) })
+						}
 					}
 				}
 				for seed, pc := range seedPrograms() {
